@@ -53,3 +53,22 @@ Example C12_example :
   parse_qsl [97;61;49;38;98;61;37;50;54;38;97;61;50] = [([97],[49]); ([98],[38]); ([97],[50])].   (* a=1&b=%26&a=2 *)
 Proof. vm_compute. reflexivity. Qed.
 Print Assumptions C12_example.
+
+(** the update clause is false of the faithful model of MultiDict.update (multidict 6.2.0):
+    known finding F29, witness evaluated by the kernel:
+    a=1&a=2&b=1&b=old  updated with  [(a,x); (b,y)]  keeps  b=old *)
+From Yarl Require Import Preds.P12.
+Theorem C12_update_refuted :
+  exists old new : list (str * str),
+    update_ok (keys new) old new (md_update old new) = false.
+Proof.
+  exists [([97],[49]); ([97],[50]); ([98],[49]); ([98],[111;108;100])], [([97],[120]); ([98],[121])].
+  vm_compute. reflexivity.
+Qed.
+Print Assumptions C12_update_refuted.
+
+(** ... while a single updated key is handled as the property says on this example *)
+Example C12_update_single_key :
+  md_update [([97],[49]); ([98],[50]); ([97],[51])] [([97],[120])] = [([97],[120]); ([98],[50])].
+Proof. vm_compute. reflexivity. Qed.
+Print Assumptions C12_update_single_key.
